@@ -9,9 +9,11 @@ from .. import canon, gen
 from ..core import call_real, frac
 
 ID = "C13"
-LEAN_MODULE = "CKT.Props.C13"
+LEAN_MODULE = "CKT.Props.C13Collect"
 THEOREMS = ["CKT.C13." + t for t in ["split_total", "mapM_total", "step_total", "run_total", "key0_bit", "key1_bit", "key0_other", "key1_other",
-                                      "reset_keys", "conditioned_refused", "classical_arg_refused"]]
+                                      "reset_keys", "conditioned_refused", "classical_arg_refused",
+                                      # the returned dictionary (Props/C13Collect)
+                                      "dedupKeys_spec", "sortKeys_spec", "collect_keys", "sum_by_key", "collect_sum", "simulate_total"]]
 RULE = ("random Clifford circuits (plus exact rational rotations, incl. near-deterministic small angles) with measurements and resets in any order on 1-5 qubits and 0-5 classical bits, up to 20 instructions, bits unused, "
         "written once or overwritten (incl. re-measuring a bit that already holds 1), barriers, conditioned operations and gates carrying classical "
         "bits (refused); non-Clifford rotations (incl. near-deterministic small angles) only in the failing-input search against the independent "
